@@ -18,6 +18,15 @@ class _U(object):
 U = _U()
 
 
+class _X(object):
+    """Unspecified: derived from a conditional virtual field whose condition is not true."""
+    def __repr__(self):
+        return "X"
+
+
+X = _X()
+
+
 def known(v):
     return v is not U
 
@@ -389,10 +398,14 @@ class VirtualView(object):
         # what a conditional virtual field yields when its condition is false ("unspecified" hole, DESIGN 2.3);
         # the value is computed from the expression alone so that dependants are compared on defined cases only
         # (direct observations of the field itself are wildcarded in observe()).
+        if self.parent.has(self.f.name) is not True:
+            return X
         return self.parent.sem.eval(self.f.expr, self.parent)
 
     def ok(self):
         v = self.raw()
+        if v is X:
+            return X
         if v is U:
             return False
         if self.f.requires is not None:
@@ -402,7 +415,10 @@ class VirtualView(object):
         return True
 
     def value(self):
-        return self.raw() if self.ok() else U
+        r = self.raw()
+        if r is X:
+            return X
+        return r if self.ok() else U
 
 
 class _AnonStruct(object):
@@ -565,12 +581,18 @@ class Sem(object):
             return r[0].has(r[1])
         if k == "neg":
             a = self.eval(e[1], view, this, prev_end)
+            if a is X:
+                return X
             return U if a is U else -a
         if k == "max":
             vs = [self.eval(a, view, this, prev_end) for a in e[1:]]
+            if any(v is X for v in vs):
+                return X
             return U if any(v is U for v in vs) else max(vs)
         if k == "?:":
             c = self.eval(e[1], view, this, prev_end)
+            if c is X:
+                return X
             if c is U:
                 return U
             return self.eval(e[2] if c else e[3], view, this, prev_end)
@@ -578,6 +600,8 @@ class Sem(object):
             op = e[1]
             a = self.eval(e[2], view, this, prev_end)
             b = self.eval(e[3], view, this, prev_end)
+            if a is X or b is X:
+                return X
             if op == "&&":
                 return self.and_(a, b)
             if op == "||":
@@ -632,6 +656,8 @@ def observe(view, prefix="", out=None, depth=0):
         path = prefix + n
         if v.kind == "virtual" and h is not True:
             # documentation hole: Ok()/value of a virtual field whose condition is not true is unspecified
+            out.append("%s=%s,*,*" % (path, hs))
+        elif v.kind == "virtual" and v.ok() is X:
             out.append("%s=%s,*,*" % (path, hs))
         elif v.kind in ("scalar", "virtual", "param"):
             ok = v.ok()
